@@ -16,7 +16,7 @@ from mc.ref import table as T
 
 PROPERTY = "C05"
 LEVEL = "exploration"
-RULE = ("cases = every table of 1..K rows (K=2 quick, 3 thorough) over 36 row kinds (good; surrounding blanks; embedded comma/semicolon/tab; "
+RULE = ("cases = every table of 1..K rows (K=2 quick, 3 thorough) over 40 row kinds (good; surrounding blanks; embedded comma/semicolon/tab; "
         "embedded newline; doubled quote; Unicode; Unicode line-separator characters inside a cell; short by one and by two cells; long; blank line; all-empty cells; bad date (out-of-range, 2-digit year, 3-digit month, underscore, sign, unpadded, other format); empty description; "
         "amount cells abc, empty, 0, 0.00, -0, nan, inf, -Infinity, (12.50), $1,234.50, 1.234,50, EUR 7, 1.234, 12,500, -45.10), each run under "
         "7 layouts (skip column, location, extra field mid/last, description template with capture last, '%d %b %y' dates) x 5 delimiters (comma, ';', "
@@ -44,7 +44,7 @@ KINDS = [
     K("d-plus", "01/+2/2025", "PLUS SHOP", "3.30"), K("d-nopad", "1/5/2025", "NOPAD SHOP", "3.40"), K("d-iso", "2025-01-20", "ISO SHOP", "3.50"),
     K("a-abc", amt="abc"), K("a-empty", amt=""), K("a-0", amt="0"), K("a-0.00", amt="0.00"), K("a-neg0", amt="-0"),
     K("a-nan", amt="nan"), K("a-inf", amt="inf"), K("a-neginf", amt="-Infinity"), K("a-paren", amt="(12.50)"),
-    K("a-usd", amt="$1,234.50"), K("a-eu", amt="1.234,50"), K("a-eur7", amt="€ 7"), K("a-1.234", amt="1.234"),
+    K("a-lparen", amt="(12.50"), K("a-rparen", amt="12.50)"), K("a-usd", amt="$1,234.50"), K("a-eu", amt="1.234,50"), K("a-eur7", amt="€ 7"), K("a-1.234", amt="1.234"),
     K("a-12,500", amt="12,500"), K("a-neg", D3, "REFUND", "-45.10"), K("good2", D3, "BOOK STORE", "100"),
     # cells holding text that looks like a template placeholder (a description template is filled once, from the cells)
     K("brace-type", D2, "PLAIN STORE", "2.00", typ="{merchant}"), K("brace-desc", D2, "{type} {amount}", "2.50", typ="{date}"),
